@@ -201,6 +201,7 @@ func templates(c *explore.Ctx) {
 		on    bool
 		t     int
 		bitor bool
+		mask  uint64
 	}
 	ch := make([]choice, nf)
 	tj := map[string]stdjson.RawMessage{}
@@ -212,7 +213,7 @@ func templates(c *explore.Ctx) {
 		sp := &specs[idx[i]]
 		n := len(sp.templates) + 1
 		if sp.bitor != nil {
-			n++
+			n += 2 // the mask, and a zero mask (which must leave the value unchanged)
 		}
 		k := c.Choose(n)
 		if k == 0 {
@@ -220,8 +221,14 @@ func templates(c *explore.Ctx) {
 		}
 		anyOn = true
 		name := strings.ToLower(m.Fields[i].Name)
-		if k == len(sp.templates)+1 {
-			ch[i] = choice{on: true, bitor: true}
+		if k >= len(sp.templates)+1 {
+			ch[i] = choice{on: true, bitor: true, mask: sp.bitor.mask}
+			if k == len(sp.templates)+2 {
+				ch[i].mask = 0
+				zb := *sp.bitor
+				zb.mask = 0
+				sp = &fieldSpec{name: sp.name, field: sp.field, templates: sp.templates, bitor: &zb}
+			}
 			tj[name] = stdjson.RawMessage(fmt.Sprint(sp.bitor.mask))
 			rules[name] = sp.bitor.rule
 			cur := v.Field(i)
@@ -322,9 +329,9 @@ func templates(c *explore.Ctx) {
 				if ch[i].bitor {
 					out := reflect.New(v.Field(i).Type()).Elem()
 					if out.CanInt() {
-						out.SetInt(int64(sp.bitor.mask))
+						out.SetInt(int64(ch[i].mask))
 					} else {
-						out.SetUint(sp.bitor.mask)
+						out.SetUint(ch[i].mask)
 					}
 					exp2.Field(i).Set(out)
 				} else {
@@ -378,7 +385,7 @@ func templates(c *explore.Ctx) {
 		// one phenomenon, one signature: BitOr applied to the first of several occurrences instead of the effective (last) one
 		if inputKind == 2 && fi < len(idx) && ch[fi].bitor && specs[idx[fi]].field.Wrap == pgen.Plain {
 			g := got.Elem().Field(fi)
-			mask := specs[idx[fi]].bitor.mask
+			mask := ch[fi].mask
 			first := uint64(3) // the earlier occurrence written by input kind 2 (varint 3 / fixed 0x09090909..)
 			if strings.HasPrefix(specs[idx[fi]].name, "fixed32") {
 				first = 0x09090909
